@@ -38,6 +38,10 @@ impl<'src, T> Keyed<'src> for Alias<'src, T> {
 
 impl<'src> Display for Alias<'src, Namepath<'src>> {
   fn fmt(&self, f: &mut Formatter) -> fmt::Result {
+    if self.attributes.contains(AttributeDiscriminant::Private) {
+      writeln!(f, "[private]")?;
+    }
+
     write!(f, "alias {} := {}", self.name.lexeme(), self.target)
   }
 }
